@@ -104,19 +104,15 @@ def p_mark_finished(chk):
             return z3.If(z3.Select(Sx["c_has"], ch), z3.Select(Sx["c_" + k], ch), z3.IntVal(0))
         total0 = sum(cnt(before, k) for k in ("error", "timeout", "killed", "success"))
         total1 = sum(cnt(S1, k) for k in ("error", "timeout", "killed", "success"))
-        # requires: error is None or a non-empty string (what qs/slave.py and the queue itself pass)
-        if err is None or isinstance(err, str):
-            I.oblige("exactly_one_outcome_counter_bumped", total1 == total0 + 1)
-        else:
-            if I.decide(z3.Length(err.z) > 0):
-                I.oblige("exactly_one_outcome_counter_bumped", total1 == total0 + 1)
+        # every error value, the empty report included (it used to move no counter: fix in DESIGN 4)
+        I.oblige("exactly_one_outcome_counter_bumped", total1 == total0 + 1)
         c = I.fresh("other@chan", Z)
         I.assume(c != ch)
         for k in ("error", "timeout", "killed", "success"):
             I.oblige("other_channels_counters_unchanged", z3.Select(S1["c_" + k], c) == z3.Select(before["c_" + k], c))
         c16.finish(I, w)
 
-    chk.prove("jobs.workq._mark_finished", harness, ex, targets=[fn], replay=replay_history)
+    chk.prove("jobs.workq._mark_finished", harness, ex, targets=[fn], replay=replay_outcomes)
     # frame: done / error / result of a job are assigned nowhere else in qs/
     import ast
     from pyvc import source
@@ -439,9 +435,46 @@ def classify17(fail):
     return "other:" + d.split(":")[-1][:40]
 
 
+def replay_outcomes(model, obligation):
+    """the three callers of _mark_finished on the real workq, every kind of error report: done, event, finality, counters"""
+    import time
+    from qs import jobs
+    for caller in ("finish", "kill", "timeout"):
+        for err in ((None, "", "boom", "killed", "timeout") if caller == "finish" else (None,)):
+            w = jobs.workq()
+            jid = w.push("render", payload={}, timeout=5)
+            job = w.id2job[jid]
+            if caller == "finish":
+                w.pop(["render"])
+                w.finishjob(jid, result={"r": 1}, error=err)
+            elif caller == "kill":
+                w.killjobs([jid])
+            else:
+                real = time.time
+                time.time = lambda: real() + 3600
+                try:
+                    w.handletimeouts()
+                finally:
+                    time.time = real
+            snap = (job.done, job.error, job.result)
+            stats = {c: dict(v) for c, v in w.getstats()["channel2stat"].items()}
+            total = sum(sum(v.values()) for v in stats.values())
+            w.finishjob(jid, result={"late": 1}, error="late")
+            w.killjobs([jid])
+            wit = {"caller": caller, "error_reported": err, "done": job.done, "error": job.error, "counters": stats, "finished_jobs": 1}
+            if not job.done or not job.finish_event.is_set():
+                return True, dict(wit, detail="job not marked finished / waiters not released"), "outcome"
+            if (job.done, job.error, job.result) != snap:
+                return True, dict(wit, detail=f"a later report changed the outcome {snap} -> {(job.done, job.error, job.result)}"), "outcome"
+            if total != 1:
+                return True, dict(wit, detail=f"outcome counters add up to {total}, finished jobs: 1"), "outcome"
+    return replay_history(model, obligation)
+
+
 def replay_history(model, obligation):
     from contracts import qhistory
-    n, appl, fail, samples = qhistory.search(3, checks=("c16", "c17"), budget=60000)
+    n, appl, fail, samples = qhistory.search(3, checks=("c16", "c17"), budget=60000,
+                                             skip=lambda f: classify17(f) == "finished-between-handoff-and-resume")
     if fail:
         return True, fail, c16.classify(fail)
     return False, {"histories_searched": n}, None
@@ -475,11 +508,12 @@ def run(chk):
             f(chk)
     chk.vc_replay["C17."] = replay_history
     chk.vc_replay["C17.jobs.workq.pop[resume]."] = handoff_replay
+    chk.vc_replay["C17.jobs.workq._mark_finished."] = replay_outcomes
     if any(n == "bounded" for n, _ in parts):
         bounded(chk)
     chk.assumptions += [
         "as C16 (cooperative scheduling, heapq/min/random.choice/gevent contracts, abstract ids)",
         "the heads-unfinished clause of _preenall's contract covers queues registered in channel2q (q_has); a queue entry implies its channel is registered (Inv I2)",
-        "counter clause requires `error` to be None or a non-empty string (what qs/slave.py sends); with error == '' no counter moves (observation, excluded by the stated precondition)",
+        "error reports are None or strings (JSON numbers / lists as error values are not modelled)",
         "functools.total_ordering derives __lt__ from __le__ as `a <= b and a != b`",
     ]
